@@ -15,7 +15,8 @@ COMMON = dict(
                (r'\bauto n = new node\(nullptr\);', 'marked_ptr n = XV_NEW_NODE(0);', 'new_node'),
                (r'\bdelete new_node;', 'XV_DELETE_NODE(new_node);', 'delete_node'),
                (r'\bdelete n\.get\(\);', 'XV_DELETE_NODE(n);', 'delete_node')],
-    subst=[(r'\btraits::', 'TR_', 'traits'), (r'\bstd::ignore\s*=', '(void)', 'ignore'), (r'\bstd::nullopt\b', 'XV_NULLOPT', 'nullopt')],
+    subst=[(r'\btraits::', 'TR_', 'traits'), (r'\bstd::ignore\s*=', '(void)', 'ignore'), (r'\bstd::nullopt\b', 'XV_NULLOPT', 'nullopt'),
+           (r'\bmarked_(ptr|value)\b(?!\()', r'marked_\1_t', 'type_name')],
     deref={'t': 'GDEREF', 'h': 'GDEREF', 'new_node': 'GDEREF', 'n': 'GDEREF'},
     # nodes are kept as one small array per member (cheap for cbmc): node->member becomes N_member(node)
     post_subst=[(r'GDEREF\((\w+)\)->entries\[([^\]]+)\]\.value', r'N_entry(\1, \2)', 'node_entry'),
